@@ -17,17 +17,23 @@
 
     Main theorems
     - [bondst_tx_effect] / [bond_tx_effect]: the world after a successful BondForStSei / Bond
-      transaction: token supply and the sender's balance grew by exactly the mint of C03, the hub's
-      delegated stake by exactly the payment, the booked pools as in C03, and the State query of the
-      new world reports backing over claims for the new supply.
-    - [bond_tx_mirror]: the reward contract recorded the bSei mint (Mirror after the transaction).
+      transaction: token supply and the sender's balance grew by exactly the mint of C03, (bSei) the
+      reward contract recorded it, the hub's delegated stake grew by exactly the payment, the booked
+      pools are as in C03, and the State query of the new world reports backing over claims for the
+      new supply.
+    - [bond_tx_mirror]: Mirror holds again after the transaction.
     - [bond_tx_hub_balance]: the hub's liquid usei balance is unchanged.
     - [bondst_tx_rate_mono] / [bond_tx_rate_mono]: no reported rate is lower after the transaction
-      (C04 at transaction level), and [SoundRates] is re-established.
-    - [bondst_tx_reports] / [bond_tx_reports]: within E1 the State query of the new world answers.
+      (C04 at transaction level); the new reported rates are exact rates of backed pools.
+    - [bond_tx_invariants]: Wired, EntWf, RatesExact, BackedW and (within E1) SoundRates hold again.
+    - [bond_tx_reports]: within E1 the State query of the new world answers.
+    - [rt_execute_bond_st_some] / [rt_execute_bond_b_some]: within E1 the hub handler succeeds.
     - [bondst_tx_succeeds] / [bond_tx_succeeds]: under wiring, E1 and the ledger invariants the
-      transaction succeeds, leg by leg.
-    - [rate_monotone_step]: history-level corollary for the operations OTx _ A_hub Bond/BondForStSei. *)
+      whole transaction succeeds, leg by leg.
+    - [rate_monotone_step], [rate_step_invariants]: history-level corollary for one operation
+      OTx _ A_hub Bond/BondForStSei, successful or not.
+    - [rt_exact_of_bonded], [rt_sound_of_exact]: where [RatesExact] / [SoundRates] come from.
+    - [def_*]: the vocabulary restated. *)
 From Coq Require Import Permutation.
 From Krp Require Import Tactics Prelude Fixed FMap Types Env Registry Cw20 Reward Dispatcher Hub Exec
      ExecP Hist Inv RegistryP HubFrame HubAdmin Cw20P MirrorWire MirrorP HubRates
@@ -461,7 +467,8 @@ Lemma rt_execute_bond_b_some w h user p s1 tb g :
   w_reg w = Some g -> w_bsei w = Some tb -> RegOk g -> rg_hub g = A_hub ->
   delegated (w_env w) A_hub <= LIM -> 0 < p -> p <= LIM ->
   query_actual_state w A_hub h = Some s1 ->
-  hs_ber s1 = rate_of (hs_bb s1) (tk_supply tb + cb_reqb (h_batch h)) ->
+  (hs_ber s1 < hp_thr (h_params h) ->
+   hs_bb s1 + p <= tk_supply tb + cb_reqb (h_batch h) + p * D / hs_ber s1) ->
   0 < hs_ber s1 -> hs_ber s1 <= U128MAX -> hs_bb s1 <= LIM ->
   tk_supply tb + cb_reqb (h_batch h) <= LIM ->
   hp_pegfee (h_params h) <= D -> hp_thr (h_params h) <= D ->
@@ -497,8 +504,8 @@ Proof.
     rewrite (mulU_ok m (hp_pegfee (h_params h)) (LIM * D) D) by (try exact HD; lia). cbn [bind].
     rewrite add128_ok by lia. cbn [bind]. rewrite add128_ok by lia. cbn [bind].
     rewrite add128_ok by lia. cbn [bind].
-    pose proof (rt_fee_gap (hs_bb s1) (sb + q) p (hs_ber s1) (hp_thr (h_params h)) Hex Hber ltac:(lia) Hthr) as Hgap.
-    fold m in Hgap. rewrite sub128_ok by lia. cbn [bind].
+    pose proof (Hex ltac:(lia)) as Hgap.
+    fold m sb q in Hgap. rewrite sub128_ok by lia. cbn [bind].
     assert (Hmf : m * hp_pegfee (h_params h) / D <= m).
     { apply N.div_le_upper_bound; [exact D_nz|]. rewrite (N.mul_comm D m). apply N.mul_le_mono_l. exact Hfee. }
     unfold peg_fee. rewrite sub128_ok by lia. eexists. split; [reflexivity|apply N.le_sub_l]. }
@@ -625,19 +632,43 @@ Proof.
   assert (1 * D <= B * D) by (apply N.mul_le_mono_r; lia). lia.
 Qed.
 
+(** the peg-fee computation [claims after - backing after] cannot underflow for the rate the query
+    reports in a world where stake is booked only while the hub has delegations: the reported rate
+    is either the exact one, or the bSei pool is empty *)
+Lemma rt_gap_reported w h tb ts s p :
+  Ent w -> w_hub w = Some h -> w_bsei w = Some tb -> w_stsei w = Some ts ->
+  hc_bsei (h_cfg h) = Some A_bsei -> hc_stsei (h_cfg h) = Some A_stsei ->
+  query_actual_state w A_hub h = Some s -> 0 < hs_ber s ->
+  hs_ber s < hp_thr (h_params h) -> hp_thr (h_params h) <= D ->
+  hs_bb s + p <= tk_supply tb + cb_reqb (h_batch h) + p * D / hs_ber s.
+Proof.
+  intros Hent Hh Hb Hs Wb Ws Hq Hber Hlt Hthr.
+  assert (Hp : p <= p * D / hs_ber s).
+  { apply N.div_le_lower_bound; [lia|]. rewrite (N.mul_comm (hs_ber s) p). apply N.mul_le_mono_l. lia. }
+  assert (Hz : booked h = 0 -> s = h_state h -> hs_bb s + p <= tk_supply tb + cb_reqb (h_batch h) + p * D / hs_ber s).
+  { intros Hb0 ->. unfold booked in Hb0. lia. }
+  destruct (rt_supplies w h tb ts Wb Ws Hb Hs) as [S1 S2].
+  apply qas_inv in Hq.
+  destruct Hq as [[He Es]|[Hne (actual & _ & [[Hb0 Es]|(Hpos & sb & ss & E1 & E2 & Es)])]].
+  - apply Hz; [|exact Es]. destruct (Hent h Hh) as [Z|Z]; [exact Z|contradiction].
+  - apply Hz; assumption.
+  - rewrite S1 in E1. inversion E1; subst sb. subst s.
+    unfold synced_state in *. cbn [hs_bb hs_ber] in *.
+    eapply rt_fee_gap; [reflexivity | exact Hber | exact Hlt | exact Hthr].
+Qed.
+
 Theorem bond_tx_succeeds w user p h g tb ts r s :
-  Wired w -> RateE1 w -> Mirror w ->
+  Wired w -> EntWf w -> RateE1 w -> Mirror w ->
   w_hub w = Some h -> w_reg w = Some g -> w_bsei w = Some tb -> w_stsei w = Some ts ->
   w_reward w = Some r ->
   paused h = false -> RegOk g -> TInv tb -> tk_minter tb = Some (A_hub, None) ->
   AccrualFits r user ->
   user <> A_hub -> 0 < p -> p <= LIM -> p <= bal (w_env w) user usei ->
-  hub_query_state w A_hub = Some s ->
-  hs_ber s = rate_of (hs_bb s) (claims_b h tb) ->
+  hub_query_state w A_hub = Some s -> 0 < hs_ber s ->
   0 < bond_b_amount h s (tk_supply tb) p ->
   exists w' tr, run tx_fuel w [(user, MWasm A_hub (WHub HBond) [(usei, p)])] [] = Some (w', tr).
 Proof.
-  intros HW HE HM Hh Hg Hb Hs Hr Hpz Hok HT Hmin HA Hu Hpos Hp Hbal Hq Hex Hmint.
+  intros HW HEnt HE HM Hh Hg Hb Hs Hr Hpz Hok HT Hmin HA Hu Hpos Hp Hbal Hq Hber Hmint.
   destruct (Wired_inv _ HW) as (h0 & r0 & d & g0 & tb0 & ts0 & Hh0 & Hr0 & _ & Hg0 & Hb0 & Hs0 &
                                 Wd & Wr & Wb & Ws & Wu & _ & _ & _ & _ & Wg & _).
   rewrite Hh in Hh0. inversion Hh0; subst h0. rewrite Hb in Hb0. inversion Hb0; subst tb0.
@@ -646,13 +677,15 @@ Proof.
   unfold hub_query_state in Hq. rewrite Hh in Hq. cbn [bind] in Hq.
   destruct (rt_E1_inv w h tb ts HE Hh Hb Hs) as (E1 & E2 & E3 & E4 & E5 & E6 & _).
   destruct (rt_reported_bounds w h tb ts s HW HE Hh Hb Hs Hq) as (B1 & B2 & B3 & B4).
-  assert (Hber : 0 < hs_ber s) by (rewrite Hex; apply rt_rate_of_pos; exact E3).
+  assert (Hex : hs_ber s < hp_thr (h_params h) ->
+                hs_bb s + p <= tk_supply tb + cb_reqb (h_batch h) + p * D / hs_ber s).
+  { intros Hlt. apply (rt_gap_reported w h tb ts s p (proj2 HEnt) Hh Hb Hs Wb Ws Hq Hber Hlt E6). }
   set (e1 := xfer (w_env w) user A_hub usei p). set (w1 := set_env w e1).
   assert (Hdel1 : e_del e1 = e_del (w_env w)) by reflexivity.
   assert (Hq1 : query_actual_state w1 A_hub h = Some s) by (unfold w1; rewrite rt_qas_env; assumption).
   assert (Hd1 : delegated (w_env w1) A_hub <= LIM).
   { unfold w1. cbn [w_env set_env]. rewrite (delegated_same_del (w_env w) e1 A_hub Hdel1). exact E1. }
-  unfold claims_b in Hex, E3.
+  unfold claims_b in E3.
   destruct (rt_execute_bond_b_some w1 h user p s tb g Wd Wr Wb Wu Hg Hb Hok Wg Hd1 Hpos Hp Hq1 Hex Hber B3 B1 E3 E5 E6)
     as (h' & xs & mint & Hbond & Hxl & Hxs & Hmle).
   (* the minted amount is the one of C03 *)
